@@ -221,11 +221,10 @@ Proof.
   - eapply transform_within; eassumption.
 Qed.
 
-Lemma drop_bad ctx sender p : handle_proposal ctx sender p = HandlerCalled -> GoodProposal ctx sender p.
+Lemma valid_two_party_good ctx sender p :
+  valid_two_party repaired ctx p 1 sender = VOk -> GoodProposal ctx sender p.
 Proof.
-  unfold handle_proposal, handle_proposal_gen. intro H.
-  destruct (proposal_parent repaired ctx p 1) eqn:PP; try discriminate H.
-  all: destruct (valid_two_party repaired ctx p 1 sender) eqn:V; try discriminate H; clear H.
+  intro V.
   all: unfold valid_two_party in V.
   all: destruct (proposal_valid repaired p) eqn:PV; try discriminate V.
   all: unfold proposal_valid in PV; destruct (base_valid repaired (base p)) eqn:BV; try discriminate PV.
@@ -253,6 +252,23 @@ Proof.
   all: try (apply valid_sub_ok; exact V).
   all: try (exact (valid_virt_ok ctx b a parents imaps 2 Enp V)).
 Qed.
+
+(* the handler is only reached with a proposal that is good for the situation under the lock *)
+Lemma drop_bad_locked ctx0 ctx1 sender p :
+  handle_proposal_locked repaired ctx0 ctx1 sender p = HandlerCalled -> GoodProposal ctx1 sender p.
+Proof.
+  unfold handle_proposal_locked. intro H.
+  destruct (proposal_parent repaired ctx0 p 1); try discriminate H.
+  all: destruct (valid_two_party repaired ctx1 p 1 sender) eqn:V; try discriminate H.
+  all: apply valid_two_party_good; exact V.
+Qed.
+
+Lemma handle_proposal_locked_same ctx sender p :
+  handle_proposal_locked repaired ctx ctx sender p = handle_proposal ctx sender p.
+Proof. reflexivity. Qed.
+
+Lemma drop_bad ctx sender p : handle_proposal ctx sender p = HandlerCalled -> GoodProposal ctx sender p.
+Proof. rewrite <- handle_proposal_locked_same. apply drop_bad_locked. Qed.
 
 (* ---------- no panic ---------- *)
 Lemma fill_some row im p acc :
@@ -331,26 +347,26 @@ Proof.
   destruct T as [vb ->]. destruct (bals_ge _ _); discriminate.
 Qed.
 
-Lemma no_panic ctx sender p : ctx_ok ctx = true -> handle_proposal ctx sender p <> Panic.
+Lemma proposal_parent_no_panic ctx p : proposal_parent repaired ctx p 1 <> PPanic.
 Proof.
-  intro CO. unfold handle_proposal, handle_proposal_gen.
-  assert (PP : proposal_parent repaired ctx p 1 <> PPanic).
-  { destruct p; cbn [proposal_parent repaired fx_parent_idx]; try discriminate.
-    - destruct (find_chan ctx parent); discriminate.
-    - destruct (nth_error parents 1); [|discriminate]. destruct (find_chan ctx b0); discriminate. }
-  destruct (proposal_parent repaired ctx p 1) eqn:EPP; try discriminate; try (elim PP; reflexivity).
-  all: clear PP.
-  all: destruct (valid_two_party repaired ctx p 1 sender) eqn:V; try discriminate; exfalso.
-  all: unfold valid_two_party in V.
-  all: unfold proposal_valid in V; destruct (base_valid repaired (base p)) eqn:BV;
+  destruct p; cbn [proposal_parent repaired fx_parent_idx]; try discriminate.
+  - destruct (find_chan ctx parent); discriminate.
+  - destruct (nth_error parents 1); [|discriminate]. destruct (find_chan ctx b0); discriminate.
+Qed.
+
+(* validation does not panic as long as the parent of a sub-channel proposal is (still) registered *)
+Lemma valid_two_party_no_panic ctx sender p : ctx_ok ctx = true -> proposal_peers ctx p <> None ->
+  valid_two_party repaired ctx p 1 sender <> VPanic.
+Proof.
+  intros CO PE V.
+  unfold valid_two_party in V.
+  unfold proposal_valid in V; destruct (base_valid repaired (base p)) eqn:BV;
        try discriminate V; try (eapply base_valid_no_panic; exact BV).
-  all: destruct (base_valid_ok _ BV) as (a & np & Ea & Enp & Va & Wp & Lk).
-  all: destruct p as [b part lpeers|b parent|b proposer vpeers parents imaps]; cbn [base] in *.
+  destruct (base_valid_ok _ BV) as (a & np & Ea & Enp & Va & Wp & Lk).
+  destruct p as [b part lpeers|b parent|b proposer vpeers parents imaps]; cbn [base] in *.
   all: try (destruct part; try discriminate V).
-  all: cbn [proposal_parent] in EPP; cbn [proposal_peers] in V.
-  all: try (destruct (find_chan ctx parent) eqn:FC; try discriminate EPP; cbn [option_map] in V).
-  all: try (cbn [repaired fx_parent_idx] in EPP;
-            destruct (nth_error parents 1) as [pid0|]; [destruct (find_chan ctx pid0)|]; discriminate EPP).
+  all: cbn [proposal_peers] in V, PE.
+  all: try (destruct (find_chan ctx parent) eqn:FC; [|elim PE; reflexivity]; cbn [option_map] in V).
   all: rewrite Ea, Enp in V.
   all: match type of V with context [negb (?n =? len ?l)] => destruct (n =? len l) eqn:E1; cbn [negb] in V; [|discriminate V] end.
   all: match type of V with context [negb (len ?l =? 2)] => destruct (len l =? 2) eqn:E2; cbn [negb] in V; [|discriminate V];
@@ -362,6 +378,26 @@ Proof.
     destruct (negb _); [discriminate V|]. destruct (negb _); [discriminate V|]. destruct (negb _); discriminate V.
   - apply N.eqb_eq in E1. cbn in E1. subst np.
     exact (valid_virt_no_panic ctx b a parents imaps CO Va Enp V).
+Qed.
+
+Lemma no_panic_locked ctx0 ctx1 sender p : ctx_ok ctx1 = true -> parent_stays ctx0 ctx1 p ->
+  handle_proposal_locked repaired ctx0 ctx1 sender p <> Panic.
+Proof.
+  intros CO PS. unfold handle_proposal_locked.
+  pose proof (proposal_parent_no_panic ctx0 p) as PP.
+  destruct (proposal_parent repaired ctx0 p 1) eqn:EPP; try discriminate; try (elim PP; reflexivity).
+  all: destruct (valid_two_party repaired ctx1 p 1 sender) eqn:V; try discriminate; exfalso.
+  all: revert V; apply valid_two_party_no_panic; [exact CO|].
+  all: destruct p as [b part lpeers|b parent|b proposer vpeers parents imaps];
+       cbn [proposal_peers proposal_parent parent_stays] in *; try discriminate.
+  all: destruct (find_chan ctx0 parent); try discriminate EPP.
+  all: destruct (find_chan ctx1 parent); [discriminate|]; elim PS; [discriminate|reflexivity].
+Qed.
+
+Lemma no_panic ctx sender p : ctx_ok ctx = true -> handle_proposal ctx sender p <> Panic.
+Proof.
+  intro CO. rewrite <- handle_proposal_locked_same. apply no_panic_locked; [exact CO|].
+  destruct p; cbn [parent_stays]; auto.
 Qed.
 
 (* ---------- completeCPP: both sides build the same channel ---------- *)
@@ -817,3 +853,28 @@ Definition exCtxNarrow : octx :=
 Example no_panic_needs_ctx_ok :
   ctx_ok exCtxNarrow = false /\ handle_proposal exCtxNarrow wB exVirtGood = Panic.
 Proof. split; vm_compute; reflexivity. Qed.
+
+(* ---------- arrival while the parent is locked ---------- *)
+(* the parent L1 as it is after an update that was in flight when the proposal arrived: 50/50 -> 1/99 *)
+Definition exCtxA_after : octx :=
+  mkCtx wA [kA1; kA2; kA3]
+    [mkCI idL1 [pa kB1; pa kA1] [wB; wA] 1 (mkAlloc [0] [7] [[1; 99]%Z] []);
+     mkCI idL3 [pa kA2; pa kI1] [wA; wI] 0 (mkAlloc [0] [7] [[5; 5]%Z] [])].
+Example locked_examples :
+  handle_proposal_locked repaired exCtxA exCtxA_after wB exSub = Dropped          (* fundable on arrival only *)
+  /\ handle_proposal_locked repaired exCtxA_after exCtxA wB exSub = HandlerCalled   (* fundable under the lock *)
+  /\ parent_stays exCtxA exCtxA_after exSub /\ ctx_ok exCtxA_after = true.
+Proof.
+  split; [vm_compute; reflexivity|]. split; [vm_compute; reflexivity|]. split; [|reflexivity].
+  cbn [parent_stays exSub]. intros _. vm_compute. discriminate.
+Qed.
+(* validating on arrival instead of under the lock shows the user a proposal the parent cannot fund *)
+Lemma early_validation_refuted :
+  handle_proposal_early repaired exCtxA exCtxA_after wB exSub = HandlerCalled
+  /\ ~ GoodProposal exCtxA_after wB exSub.
+Proof.
+  split; [vm_compute; reflexivity|]. intro G.
+  destruct G as (a & n & Ea & _ & _ & _ & _ & _ & _ & c & Fc & _ & _ & W).
+  cbn in Ea. injection Ea as <-. vm_compute in Fc. injection Fc as <-.
+  cbn in W. inversion W as [|? ? ? ? R _]; subst. inversion R as [|? ? ? ? L _]; subst. lia.
+Qed.
